@@ -1235,7 +1235,19 @@ class FuncDecimal(ValueFunc):
         return ["obj"]
 
     def execute(self, args, environment, pos):
-        return args.getAsDecimal("obj")
+        result = args.getAsDecimal("obj")
+        if type(result.value) is not float:
+            # an int is kept exact for comparisons; as a decimal *value*
+            # it is the nearest float, like every other decimal
+            try:
+                result = ValueDecimal(float(result.value))
+            except OverflowError:
+                raise CklRuntimeError(
+                    ValueString("ERROR"),
+                    "Cannot convert " + str(result.value) + " to decimal",
+                    pos,
+                )
+        return result
 
 
 class FuncDeleteAt(ValueFunc):
